@@ -8,7 +8,7 @@ def parseMode : String → Option ProbeMode
   | "ok" => some .ok
   | "fail" => some .fail
   | "hang" => some .hang
-  | _ => none
+  | s => if s.startsWith "status:" then ((s.drop 7).toString.toNat?).map .status else none
 
 def parseOp (op : String) (kv : KV) : Option Op :=
   match op with
